@@ -42,6 +42,9 @@ func init() {
 			"(field arithmetic inside the herumi C library); that strconv.Itoa/SetDecString are injective renderings (library semantics, trusted).",
 		Run: c08,
 		Mutants: []Mutant{
+			{ID: "C08-S1-recover-secret-contiguous-counter", File: "tbls/herumi.go", Expect: "S1",
+				Old: "\tfor idx, key := range shares {\n\t\tvar kpk bls.SecretKey\n\t\tif err := kpk.Deserialize(key[:]); err != nil {\n\t\t\treturn PrivateKey{}, errors.Wrap(\n\t\t\t\terr,\n\t\t\t\t\"unmarshal key with into Herumi secret key\",",
+				New: "\tfor idx := 1; idx <= len(shares); idx++ {\n\t\tkey := shares[idx]\n\n\t\tvar kpk bls.SecretKey\n\t\tif err := kpk.Deserialize(key[:]); err != nil {\n\t\t\treturn PrivateKey{}, errors.Wrap(\n\t\t\t\terr,\n\t\t\t\t\"unmarshal key with into Herumi secret key\","},
 			// ---- S1 split side
 			{ID: "C08-S1-split-from-zero", File: c08File, Expect: "S1|ThresholdSplit identifiers start at 1",
 				Old: c08SplitLp + "1; i <= int(total); i++ {", New: c08SplitLp + "0; i <= int(total); i++ {"},
@@ -788,6 +791,16 @@ func c08Recover(c *rt.Ctx, name, typ string) {
 	}
 	nx := c08RangeNext(l)
 	if nx == nil || l.RangeColl() != ssa.Value(input) {
+		// a counting loop that reads input[counter] assumes the share identifiers are exactly 1..len(input):
+		// any subset with a gap silently uses zero values / skips real shares and recovers a wrong result
+		for b := range l.Body {
+			for _, in := range b.Instrs {
+				if lk, ok := in.(*ssa.Lookup); ok && lk.X == ssa.Value(input) {
+					c.Bad(pre+"every input share is used", lk.Pos(), "the shares are fetched by a counter (input[i] for i = 1..len) instead of ranging over the map: identifiers are assumed contiguous from 1, subsets with gaps combine zero values under wrong identifiers")
+					return
+				}
+			}
+		}
 		c.Unsure(pair, rec.Pos(), "the accumulating loop does not range over the input map")
 		return
 	}
